@@ -6,14 +6,15 @@ import TinsModel.Wire.Chain.StepAll
   `chain_reparse_aux_all` lifts the one-layer step (`step_all`) through `Wire.serializeObjs` (= `PDU::serialize` over the
   registry's chain) and `Wire.parseChain` (= the nested parsing constructors) by induction over the stack, for stacks of any
   depth mixing the link-layer family, IP (+options), IPSecAH, IPSecESP, IPv6 (+extension headers), UDP, TCP (+options),
-  ICMP, ICMPv6 and a final RawPDU — every stack that satisfies `StackableAll` (Stackable.lean).
+  ICMP, ICMPv6, the App family (ARP, STP, VXLAN, RTP, BootP, DHCP, DHCPv6), the Wifi family (RadioTap, the Dot11 classes,
+  RC4EAPOL / RSNEAPOL) and a final RawPDU — every stack that satisfies `StackableAll` (Stackable.lean).
 
   **Minimum-frame padding is accounted for exactly**: the zero bytes EthernetII (pad to 60) and Dot1Q (pad to 50) append show
   up behind the innermost payload only when no layer in between carries a length that cuts them off; `padAll os`
   (= `reach os 0`) is that number: `padAll_le_padOf` (never more than Σ trailer sizes, the bound of the link-layer theorem)
   and `padAll_of_cut` (0 as soon as IP / IPv6 / PPPoE sits above the payload: the view is then *equal*, no extra zeros).
 
-  Main statements: `chain_reparse_all`, `chain_reparse_all_view`, `chain_reparse_all_exact`.
+  Main statements: `chain_reparse_all`, `chain_reparse_all_named`, `chain_reparse_all_view`, `chain_reparse_all_exact`.
 -/
 namespace Tins.Wire.ChainAll
 open Tins Tins.Wire
@@ -24,17 +25,36 @@ open Tins.Wire.L2 (layerView splitRaw stripView padOf ViewEq IsTail TailInner cx
 theorem l2ToNet_hdr_pos (x : L2.Obj) (ver v : Nat) (h : l2ToNet x ver v) : 0 < L2.hdr x := by
   cases x <;> first | (simp only [L2.hdr]; omega) | exact h.elim
 
+theorem l2Ether_hdr_pos (x : L2.Obj) (h : l2Ether x) : 0 < L2.hdr x := by
+  cases x <;> first | (simp only [L2.hdr]; omega) | exact h.elim
+
 theorem hdrA_pos (x : AnyObj) (r : List AnyObj) (h : LayerOK x r) : 0 < x.hdr := by
   obtain ⟨hinv, hser, hside, hlink⟩ := h
   cases x with
   | raw p => exact hside.elim
-  | app o => exact hside.elim
-  | wifi o => exact hside.elim
+  | app o =>
+    cases o with
+    | arp a => show 0 < 28; omega
+    | vxlan v => show 0 < 8; omega
+    | stp s => show 0 < 35; omega
+    | rtp t => show 0 < t.hdr; unfold App.Rtp.hdr; omega
+    | bootp p => show 0 < p.hdr; unfold App.BootP.hdr App.BootP.hdrSize; omega
+    | dhcp d => show 0 < d.hdr; unfold App.Dhcp.hdr App.BootP.hdrSize; omega
+    | dhcpv6 d => show 0 < d.hdr; unfold App.Dhcpv6.hdr; split <;> omega
+  | wifi o =>
+    cases o with
+    | dot11 d => show 0 < d.hdrSize; unfold Wifi.Dot11.hdrSize; simp only; omega
+    | eapol e => show 0 < e.hdrSize; unfold Wifi.Eapol.hdrSize; omega
+    | radiotap t => show 0 < t.hdrSize; unfold Wifi.RadioTap.hdrSize; omega
   | l2 x =>
-    rcases linkAll_l2_cases x r hlink with ⟨y, r', _, _, hl⟩ | hl
+    rcases linkAll_l2_cases x r hlink with ⟨y, r', _, _, hl⟩ | ⟨y, r', n, _, _, hl⟩ | ⟨s, r', _, hl⟩ | hl
     · cases y with
       | ip o => cases o <;> first | exact l2ToNet_hdr_pos x _ _ hl | exact hl.elim
       | ip6 o => cases o; exact l2ToNet_hdr_pos x _ _ hl
+      | _ => exact hl.elim
+    · exact l2Ether_hdr_pos x hl
+    · cases x with
+      | llc l => show 0 < l.hdr; unfold L2.Llc.hdr; omega
       | _ => exact hl.elim
     · exact L2.hdr_pos x _ hl
   | ip o =>
@@ -59,29 +79,50 @@ theorem hdrA_pos (x : AnyObj) (r : List AnyObj) (h : LayerOK x r) : 0 < x.hdr :=
       unfold Icmp.Icmp6.hdr
       omega
 
-theorem modelled_of_layerOK (x : AnyObj) (r : List AnyObj) (h : LayerOK x r) : modelled x.info.1 = true := by
+/-- every entry of the Wifi family is a modelled class other than RawPDU -/
+theorem wifi_classes_modelled : ∀ c ∈ Wifi.classes, modelled c = true ∧ c ≠ "RawPDU" := by decide
+
+/-- the class name of a representable layer is a modelled class other than RawPDU -/
+theorem name_of_layerOK (x : AnyObj) (r : List AnyObj) (h : LayerOK x r) : modelled x.info.1 = true ∧ x.info.1 ≠ "RawPDU" := by
   obtain ⟨_, _, hside, _⟩ := h
   cases x with
   | raw p => exact hside.elim
-  | app o => exact hside.elim
-  | wifi o => exact hside.elim
-  | l2 x => exact L2.l2_modelled x
+  | app o => cases o <;> (simp only [AnyObj.info, App.info]; decide)
+  | wifi o =>
+    cases o with
+    | dot11 d =>
+      have hl : Wifi.layoutOf d.cls = some d.lay := hside.2
+      exact wifi_classes_modelled d.cls (dot11_classes_facts d.cls (layoutOf_mem d.cls d.lay hl)).1
+    | eapol e =>
+      show modelled (if e.rsn then "RSNEAPOL" else "RC4EAPOL") = true ∧ (if e.rsn then "RSNEAPOL" else "RC4EAPOL") ≠ "RawPDU"
+      cases e.rsn <;> decide
+    | radiotap t => simp only [AnyObj.info, Wifi.info]; decide
+  | l2 x => exact ⟨L2.l2_modelled x, by cases x <;> (simp only [AnyObj.info, L2.info]; decide)⟩
   | ip o => cases o <;> (simp only [AnyObj.info, Ip.info]; decide)
   | ip6 o => cases o; simp only [AnyObj.info, Ip6.info]; decide
   | tr o => cases o <;> (simp only [AnyObj.info, Transport.info]; decide)
   | icmp o => cases o <;> (simp only [AnyObj.info, Icmp.info]; decide)
 
-theorem not_rawName_of_layerOK (x : AnyObj) (r : List AnyObj) (h : LayerOK x r) : x.info.1 ≠ "RawPDU" := by
-  obtain ⟨_, _, hside, _⟩ := h
-  cases x with
-  | raw p => exact hside.elim
-  | app o => exact hside.elim
-  | wifi o => exact hside.elim
-  | l2 x => cases x <;> (simp only [AnyObj.info, L2.info]; decide)
-  | ip o => cases o <;> (simp only [AnyObj.info, Ip.info]; decide)
-  | ip6 o => cases o; simp only [AnyObj.info, Ip6.info]; decide
-  | tr o => cases o <;> (simp only [AnyObj.info, Transport.info]; decide)
-  | icmp o => cases o <;> (simp only [AnyObj.info, Icmp.info]; decide)
+theorem modelled_of_layerOK (x : AnyObj) (r : List AnyObj) (h : LayerOK x r) : modelled x.info.1 = true :=
+  (name_of_layerOK x r h).1
+
+theorem not_rawName_of_layerOK (x : AnyObj) (r : List AnyObj) (h : LayerOK x r) : x.info.1 ≠ "RawPDU" :=
+  (name_of_layerOK x r h).2
+
+/-- every entry name of a representable layer is a modelled class other than RawPDU -/
+theorem name_of_entry (n : String) (x : AnyObj) (r : List AnyObj) (hn : EntryName n x) (h : LayerOK x r) :
+    modelled n = true ∧ n ≠ "RawPDU" := by
+  rcases hn with rfl | hps
+  · exact name_of_layerOK x r h
+  · cases x with
+    | wifi o =>
+      cases o with
+      | dot11 d => obtain ⟨rfl, _⟩ : n = "Dot11*" ∧ _ := hps; decide
+      | eapol e =>
+        obtain ⟨hn, _⟩ : (n = "EAPOL" ∨ n = "EAPOL*") ∧ _ := hps
+        rcases hn with rfl | rfl <;> decide
+      | radiotap t => exact hps.elim
+    | _ => exact hps.elim
 
 theorem not_raw_of_layerOK (x : AnyObj) (r : List AnyObj) (h : LayerOK x r) : isRaw x = false := by
   cases x with
@@ -94,43 +135,6 @@ theorem parsed_not_raw (cls : String) (b : Bytes) (x' : AnyObj) (inner : Inner) 
   cases x' with
   | raw p => exact absurd (L2.parseOne_raw_inv cls b p inner hp).1 hc
   | _ => rfl
-
-/-- padding is only ever handed to Dot1Q / MPLS / PPPoE / IP / IPv6: what follows a layer with a trailer, or a layer that
-    itself has padding behind it -/
-theorem link_padA (ps : List LayerInfo) (x y : AnyObj) (r : List AnyObj) (k : Nat) (hok : LayerOK x (y :: r))
-    (hy : isRaw y = false) (hk : PadCond ps x k) : cut x (x.trl (sizeOfStack (y :: r)) + k) = 0 ∨ PadOK y := by
-  obtain ⟨hinv, hser, hside, hlink⟩ := hok
-  have hk0 : ¬ PadOK x → k = 0 := fun hn => by rcases hk with h | h; exact h; exact absurd h.2 hn
-  have hnx := nextA_cons_of_not_raw y r hy
-  cases x with
-  | raw p => exact hside.elim
-  | app o => exact hside.elim
-  | wifi o => exact hside.elim
-  | l2 x =>
-    rcases linkAll_l2_cases x (y :: r) hlink with ⟨y', r', he, hy', _⟩ | hl
-    · injection he with e1 e2; subst e1; exact .inr (netTier_padOK hy')
-    · cases y with
-      | l2 z =>
-        rcases L2.link_pad ps x z r (sizeOfStack (.l2 z :: r)) k hl hk with h | h
-        · left
-          show cut (.l2 x) (L2.trl x (sizeOfStack (.l2 z :: r)) + k) = 0
-          rw [h]; exact cut_zero _
-        · exact .inr h
-      | raw p => cases hy
-      | ip o => exact (l2_link_bad x hl).elim
-      | ip6 o => exact (l2_link_bad x hl).elim
-      | icmp o => exact (l2_link_bad x hl).elim
-      | tr o => exact (l2_link_bad x hl).elim
-      | app o => exact (l2_link_bad x hl).elim
-      | wifi o => exact (l2_link_bad x hl).elim
-  | ip o =>
-    cases o with
-    | ip i => exact .inl rfl
-    | ah a => have := hk0 (fun h => h); subst this; exact .inl rfl
-    | esp e => simp only [LinkAll, hnx] at hlink
-  | ip6 o => cases o; exact .inl rfl
-  | tr o => simp only [LinkAll, hnx] at hlink
-  | icmp o => simp only [LinkAll, hnx] at hlink
 
 /-! ### one level of `PDU::serialize` + one level of the parsing constructors -/
 
@@ -149,18 +153,20 @@ theorem semsAux_consA (ps : List LayerInfo) (x : AnyObj) (os : List AnyObj) :
 theorem sizeOf_semsAuxA (os : List AnyObj) (parents : List LayerInfo) :
     Wire.sizeOf (semsAux parents os (infos os)) = sizeOfStack os := sizeOf_semsAux' os parents
 
-theorem chain_step_all (x : AnyObj) (os : List AnyObj) (ps : List LayerInfo) (region : Bytes) (k : Nat)
-    (hok : LayerOK x os) (hlen : region.length = Wire.sizeOf (semsAux ps (x :: os) (infos (x :: os))))
-    (hk : PadCond ps x k) (io : Bytes)
+/-- one level: `PDU::serialize` of the layer around the bytes `io` of its inner chain, and — for every entry name `n` of the
+    class and every amount `k` of legitimate padding behind the region — the parsing constructor on the result -/
+theorem chain_step_all (x : AnyObj) (os : List AnyObj) (ps : List LayerInfo) (region : Bytes)
+    (hok : LayerOK x os) (hlen : region.length = Wire.sizeOf (semsAux ps (x :: os) (infos (x :: os)))) (io : Bytes)
     (hio : serializeInto (semsAux (liOfA x os :: ps) os (infos os)) (innerOf (semOfA ps x os) region) = .ok io)
     (hiol : io.length = sizeOfStack os)
     (hnil : os = [] → io = []) (hraw : ∀ p, os = [.raw p] → io = p)
     (hpos : ∀ y r, nextA os = .obj y r → 0 < io.length) (hnib : ∀ y r, nextA os = .obj y r → FirstNib y io) :
-    ∃ out x' inner, serializeInto (semsAux ps (x :: os) (infos (x :: os))) region = .ok out ∧
-      out.length = region.length ∧
-      parseOne x.info.1 (out ++ List.replicate k 0) = .ok (x', inner) ∧
-      layerView false x' = layerView false x ∧
-      StepInnerA x os io (x.trl (sizeOfStack os) + k) x' inner ∧ FirstNib x out := by
+    ∃ out, serializeInto (semsAux ps (x :: os) (infos (x :: os))) region = .ok out ∧
+      out.length = region.length ∧ FirstNib x out ∧
+      ∀ n k, EntryName n x → PadCondN ps n x k →
+        ∃ x' inner, parseOne n (out ++ List.replicate k 0) = .ok (x', inner) ∧
+          layerView false x' = layerView false x ∧
+          StepInnerA x os io (x.trl (sizeOfStack os) + k) x' inner := by
   rw [semsAux_consA] at hlen ⊢
   simp only [Wire.sizeOf, sizeOf_semsAuxA, semOfA_hdr, semOfA_trl] at hlen
   have hsl : (splice region x.hdr io).length = region.length := splice_length _ _ _ (by omega)
@@ -173,9 +179,9 @@ theorem chain_step_all (x : AnyObj) (os : List AnyObj) (ps : List LayerInfo) (re
     have e : region.length - (x.hdr + x.trl (sizeOfStack os)) = sizeOfStack os := by omega
     rw [e] at h2
     exact h2
-  rcases step_all ps x os hok k hk (splice region x.hdr io) io (by rw [hsl]; omega) hin' hiol hnil hraw hpos hnib with
-    ⟨out, x', inner, hw, hl, hp, hv, hs, hf⟩
-  refine ⟨out, x', inner, ?_, by omega, hp, hv, hs, hf⟩
+  rcases step_all_named ps x os hok (splice region x.hdr io) io (by rw [hsl]; omega) hin' hiol hnil hraw hpos hnib with
+    ⟨out, hw, hl, hf, hpar⟩
+  refine ⟨out, ?_, by omega, hf, hpar⟩
   have hio' : serializeInto (semsAux (liOfA x os :: ps) os (infos os))
       ((region.drop (semOfA ps x os).hdr).take (region.length - ((semOfA ps x os).hdr + (semOfA ps x os).trl))) = .ok io := hio
   simp only [serializeInto, hio', bind, Out.bind]
@@ -191,18 +197,19 @@ theorem sizeOfStack_raw (p : Bytes) : sizeOfStack [.raw p] = p.length := by
 /-! ### the induction over the stack -/
 
 /-- **whole-packet C03, generalised for the induction**: any sub-stack (`x :: os`, with the ancestors `ps` above it),
-    serialized into a region of its size, followed by `k` zero bytes of the ancestors' padding -/
-theorem chain_reparse_aux_all (os : List AnyObj) : ∀ (x : AnyObj) (ps : List LayerInfo) (region : Bytes) (k : Nat),
+    serialized into a region of its size; re-parsed under any entry name `n` of the class of `x`, followed by `k` zero bytes
+    of the ancestors' padding -/
+theorem chain_reparse_aux_all (os : List AnyObj) : ∀ (x : AnyObj) (ps : List LayerInfo) (region : Bytes),
     isRaw x = false → StackableAll (x :: os) →
-    region.length = Wire.sizeOf (semsAux ps (x :: os) (infos (x :: os))) → PadCond ps x k →
+    region.length = Wire.sizeOf (semsAux ps (x :: os) (infos (x :: os))) →
     ∃ out, serializeInto (semsAux ps (x :: os) (infos (x :: os))) region = .ok out ∧ out.length = region.length ∧
       FirstNib x out ∧
-      ∀ fuel, out.length + k < fuel →
-        ∃ os', parseChain fuel x.info.1 (out ++ List.replicate k 0) = .ok os' ∧
+      ∀ n k, EntryName n x → PadCondN ps n x k → ∀ fuel, out.length + k < fuel →
+        ∃ os', parseChain fuel n (out ++ List.replicate k 0) = .ok os' ∧
           ViewEqAll (reach (x :: os) k) (x :: os) os' := by
   induction os with
   | nil =>
-    intro x ps region k hx hst hlen hk
+    intro x ps region hx hst hlen
     rw [stackableAll_cons hx] at hst
     obtain ⟨hok, _⟩ := hst
     have hlen0 := hlen
@@ -212,22 +219,24 @@ theorem chain_reparse_aux_all (os : List AnyObj) : ∀ (x : AnyObj) (ps : List L
     have hil : (innerOf (semOfA ps x []) region).length = 0 := by
       simp only [innerOf, semOfA_hdr, semOfA_trl, List.length_take, List.length_drop]; omega
     have hi0 : innerOf (semOfA ps x []) region = [] := List.eq_nil_of_length_eq_zero hil
-    rcases chain_step_all x [] ps region k hok hlen hk [] (by rw [hi0]; rfl) rfl (fun _ => rfl)
+    rcases chain_step_all x [] ps region hok hlen [] (by rw [hi0]; rfl) rfl (fun _ => rfl)
       (fun p h => by cases h) (fun y r h => by cases h) (fun y r h => by cases h) with
-      ⟨out, x', inner, hser, hl, hp, hv, hs, hf⟩
+      ⟨out, hser, hl, hf, hstep⟩
     refine ⟨out, hser, hl, hf, ?_⟩
-    intro fuel hfu
+    intro n k hn hk fuel hfu
+    rcases hstep n k hn hk with ⟨x', inner, hp, hv, hs⟩
     obtain ⟨f, rfl⟩ : ∃ f, fuel = f + 1 := ⟨fuel - 1, by omega⟩
     unfold StepInnerA at hs
-    have hn : nextA ([] : List AnyObj) = .none := rfl
-    rw [hn] at hs
-    rcases L2.parseChain_leaf f _ _ _ _ _ (modelled_of_layerOK x [] hok) hp hs with ⟨t', hpc, htl⟩
+    have hnx : nextA ([] : List AnyObj) = .none := rfl
+    rw [hnx] at hs
+    have hname := name_of_entry n x [] hn hok
+    rcases L2.parseChain_leaf f _ _ _ _ _ hname.1 hp hs with ⟨t', hpc, htl⟩
     refine ⟨_, hpc, ?_⟩
-    have hx' := parsed_not_raw _ _ x' inner (not_rawName_of_layerOK x [] hok) hp
+    have hx' := parsed_not_raw _ _ x' inner hname.2 hp
     rw [reach_cons x [] k hx]
     exact viewEq_leafA _ x x' hx hx' [] t' [] _ (Nat.le_refl _) (.inl ⟨rfl, rfl⟩) htl hv.symm
   | cons a r ih =>
-    intro x ps region k hx hst hlen hk
+    intro x ps region hx hst hlen
     rw [stackableAll_cons hx] at hst
     obtain ⟨hok, hst'⟩ := hst
     have hlen0 := hlen
@@ -242,20 +251,22 @@ theorem chain_reparse_aux_all (os : List AnyObj) : ∀ (x : AnyObj) (ps : List L
         have hr : r = [] := hst'
         subst hr
         have hsz := sizeOfStack_raw p
-        rcases chain_step_all x [.raw p] ps region k hok hlen hk p
+        rcases chain_step_all x [.raw p] ps region hok hlen p
           (L2.serializeInto_raw _ p _ (by rw [hil, hsz])) (by rw [hsz]) (fun h => by cases h)
           (fun q h => by cases h; rfl) (fun y r h => by cases h) (fun y r h => by cases h) with
-          ⟨out, x', inner, hser, hl, hp, hv, hs, hf⟩
+          ⟨out, hser, hl, hf, hstep⟩
         refine ⟨out, hser, hl, hf, ?_⟩
-        intro fuel hfu
+        intro n k hn hk fuel hfu
+        rcases hstep n k hn hk with ⟨x', inner, hp, hv, hs⟩
         obtain ⟨f, rfl⟩ : ∃ f, fuel = f + 1 := ⟨fuel - 1, by omega⟩
         unfold StepInnerA at hs
-        have hn : nextA [AnyObj.raw p] = .raw p := rfl
-        rw [hn] at hs
+        have hnx : nextA [AnyObj.raw p] = .raw p := rfl
+        rw [hnx] at hs
         obtain ⟨hvt, ht⟩ := hs
-        rcases L2.parseChain_leaf f _ _ _ _ _ (modelled_of_layerOK x _ hok) hp ht with ⟨t', hpc, htl⟩
+        have hname := name_of_entry n x _ hn hok
+        rcases L2.parseChain_leaf f _ _ _ _ _ hname.1 hp ht with ⟨t', hpc, htl⟩
         refine ⟨_, hpc, ?_⟩
-        have hx' := parsed_not_raw _ _ x' inner (not_rawName_of_layerOK x _ hok) hp
+        have hx' := parsed_not_raw _ _ x' inner hname.2 hp
         rw [reach_cons x [.raw p] k hx]
         exact viewEq_leafA _ x x' hx hx' [.raw p] t' p _ (Nat.le_refl _) (.inr rfl) htl hvt.symm
       | _ => cases ha
@@ -263,31 +274,75 @@ theorem chain_reparse_aux_all (os : List AnyObj) : ∀ (x : AnyObj) (ps : List L
       have hst'' := hst'
       rw [stackableAll_cons ha] at hst''
       have hoka := hst''.1
-      have hn : nextA (a :: r) = .obj a r := nextA_cons_of_not_raw a r ha
-      have hk' := link_padA ps x a r k hok ha hk
-      rcases ih a (liOfA x (a :: r) :: ps) (innerOf (semOfA ps x (a :: r)) region)
-        (cut x (x.trl (sizeOfStack (a :: r)) + k)) ha hst' (by rw [hil, sizeOf_semsAuxA])
-        (by rcases hk' with h | h; exact .inl h; exact .inr ⟨by simp, h⟩) with ⟨io, hio, hiol, hfn, hpar⟩
+      have hnx : nextA (a :: r) = .obj a r := nextA_cons_of_not_raw a r ha
+      rcases ih a (liOfA x (a :: r) :: ps) (innerOf (semOfA ps x (a :: r)) region) ha hst'
+        (by rw [hil, sizeOf_semsAuxA]) with ⟨io, hio, hiol, hfn, hpar⟩
       have hapos := hdrA_pos a r hoka
       have hiopos : 0 < io.length := by
         rw [hiol, hil, sizeOfStack_cons]; omega
-      rcases chain_step_all x (a :: r) ps region k hok hlen hk io hio (by rw [hiol, hil]) (fun h => by cases h)
+      rcases chain_step_all x (a :: r) ps region hok hlen io hio (by rw [hiol, hil]) (fun h => by cases h)
         (fun q h => by cases h; cases ha) (fun _ _ _ => hiopos)
-        (fun y r' h => by rw [hn] at h; injection h with h1 h2; subst h1; exact hfn) with
-        ⟨out, x', inner, hser, hl, hp, hv, hs, hf⟩
+        (fun y r' h => by rw [hnx] at h; injection h with h1 h2; subst h1; exact hfn) with
+        ⟨out, hser, hl, hf, hstep⟩
       refine ⟨out, hser, hl, hf, ?_⟩
-      intro fuel hfu
+      intro n k hn hk fuel hfu
+      rcases hstep n k hn hk with ⟨x', inner, hp, hv, hs⟩
       obtain ⟨f, rfl⟩ : ∃ f, fuel = f + 1 := ⟨fuel - 1, by omega⟩
       unfold StepInnerA at hs
-      rw [hn] at hs
-      obtain ⟨⟨fb, hinner⟩, _⟩ := hs
+      rw [hnx] at hs
+      obtain ⟨n', fb, hinner, hen', hpad'⟩ := hs
       subst hinner
       have hxpos := hdrA_pos x _ hok
       have hcl := cut_le x (x.trl (sizeOfStack (a :: r)) + k)
-      rcases hpar f (by rw [hiol, hil]; omega) with ⟨os'', hrec, hview⟩
-      refine ⟨_, L2.parseChain_cls f _ _ _ _ _ _ _ (modelled_of_layerOK x _ hok) hp hrec, ?_⟩
+      have hname := name_of_entry n x _ hn hok
+      rcases hpar n' (cut x (x.trl (sizeOfStack (a :: r)) + k)) hen'
+        (by rcases hpad' with h | h; exact .inl h; exact .inr ⟨by simp, h⟩) f (by rw [hiol, hil]; omega) with
+        ⟨os'', hrec, hview⟩
+      refine ⟨_, L2.parseChain_cls f _ _ _ _ _ _ _ hname.1 hp hrec, ?_⟩
       rw [reach_cons x (a :: r) k hx]
       exact L2.viewEq_cons _ x x' _ _ (splitRaw_ne_of_not_raw a ha r) hv.symm hview
+
+/-- **C03, whole packets of all covered families, under any entry name**: for every stack `o :: os` that the protocols can
+    express (`StackableAll`) and every name `n` under which the parsing constructors reach the class of `o` (the class name;
+    `Dot11*` for a Dot11 object whose frame-control octet selects its class; `EAPOL` / `EAPOL*` for a key frame whose
+    descriptor type octet does), if `PDU::serialize()` returns `out` then entry `n` accepts `out` (with the drivers' fuel
+    `|out| + 2`) and yields a stack with the same view. -/
+theorem chain_reparse_all_named (n : String) (o : AnyObj) (os : List AnyObj) (hn : EntryName n o)
+    (hs : StackableAll (o :: os)) (out : Bytes) (hser : serializeObjs (o :: os) = .ok out) :
+    ∃ os', parseChain (out.length + 2) n out = .ok os' ∧ ViewEqAll (padAll (o :: os)) (o :: os) os' := by
+  cases ho : isRaw o with
+  | true =>
+    cases o with
+    | raw p =>
+      have hr : os = [] := hs
+      subst hr
+      have hnr : n = "RawPDU" := by
+        rcases hn with h | h
+        · exact h
+        · exact h.elim
+      subst hnr
+      have hser' : serializeInto (semsAux [] [.raw p] (infos [.raw p])) (List.replicate p.length 0) = .ok out := by
+        have : Wire.sizeOf (semsAux [] [.raw p] (infos [.raw p])) = p.length := by
+          simp [semsAux, infos, Wire.sizeOf, AnyObj.hdr, AnyObj.trl]
+        rw [← this]; exact hser
+      rw [L2.serializeInto_raw [] p _ (by simp)] at hser'
+      injection hser' with hser'
+      subst hser'
+      refine ⟨[.raw p], by simp [parseChain, modelled, parseOne], ?_⟩
+      have : padAll [AnyObj.raw p] = 0 := rfl
+      rw [this]
+      exact L2.viewEq_raw p
+    | _ => cases ho
+  | false =>
+    rcases chain_reparse_aux_all os o [] (List.replicate (Wire.sizeOf (sems (o :: os))) 0) ho hs (by simp [sems]) with
+      ⟨out', hser', hl, _, hpar⟩
+    have : out' = out := by
+      have := hser'.symm.trans hser
+      injection this
+    subst this
+    rcases hpar n 0 hn (.inl rfl) (out'.length + 2) (by omega) with ⟨os', hp, hv⟩
+    rw [List.replicate_zero, List.append_nil] at hp
+    exact ⟨os', hp, hv⟩
 
 /-- **C03, whole packets of all covered families (`chain_reparse_all`)**: for every stack `o :: os` that the protocols can
     express (`StackableAll`), if `PDU::serialize()` returns `out` then the parsing constructor of the outermost class
@@ -296,35 +351,8 @@ theorem chain_reparse_aux_all (os : List AnyObj) : ∀ (x : AnyObj) (ps : List L
     payload), the same payload bytes followed by exactly-at-most `padAll (o :: os)` zero bytes of minimum-frame padding. -/
 theorem chain_reparse_all (o : AnyObj) (os : List AnyObj) (hs : StackableAll (o :: os)) (out : Bytes)
     (hser : serializeObjs (o :: os) = .ok out) :
-    ∃ os', parseChain (out.length + 2) o.info.1 out = .ok os' ∧ ViewEqAll (padAll (o :: os)) (o :: os) os' := by
-  cases ho : isRaw o with
-  | true =>
-    cases o with
-    | raw p =>
-      have hr : os = [] := hs
-      subst hr
-      have hser' : serializeInto (semsAux [] [.raw p] (infos [.raw p])) (List.replicate p.length 0) = .ok out := by
-        have : Wire.sizeOf (semsAux [] [.raw p] (infos [.raw p])) = p.length := by
-          simp [semsAux, infos, Wire.sizeOf, AnyObj.hdr, AnyObj.trl]
-        rw [← this]; exact hser
-      rw [L2.serializeInto_raw [] p _ (by simp)] at hser'
-      injection hser' with hser'
-      subst hser'
-      refine ⟨[.raw p], by simp [parseChain, modelled, parseOne, AnyObj.info], ?_⟩
-      have : padAll [AnyObj.raw p] = 0 := rfl
-      rw [this]
-      exact L2.viewEq_raw p
-    | _ => cases ho
-  | false =>
-    rcases chain_reparse_aux_all os o [] (List.replicate (Wire.sizeOf (sems (o :: os))) 0) 0 ho hs (by simp [sems])
-      (.inl rfl) with ⟨out', hser', hl, _, hpar⟩
-    have : out' = out := by
-      have := hser'.symm.trans hser
-      injection this
-    subst this
-    rcases hpar (out'.length + 2) (by omega) with ⟨os', hp, hv⟩
-    rw [List.replicate_zero, List.append_nil] at hp
-    exact ⟨os', hp, hv⟩
+    ∃ os', parseChain (out.length + 2) o.info.1 out = .ok os' ∧ ViewEqAll (padAll (o :: os)) (o :: os) os' :=
+  chain_reparse_all_named o.info.1 o os (entryName_self o) hs out hser
 
 /-- the same as a statement about the result of the re-parse (the parsing constructors are functions) -/
 theorem chain_reparse_all_view (o : AnyObj) (os : List AnyObj) (hs : StackableAll (o :: os)) (out : Bytes)
